@@ -20,7 +20,7 @@ EXPLANATION = ('Sibling cross-check of the two cmap implementations on the AST/C
                'condition at both users, and the bounds that make the cached block table access safe.  Glyph ids are run-time '
                'values and are not decided; agreement of the routing is the necessary condition for the two paths to agree on '
                'every code point.')
-FLOORS = {'SELECTORS': 12, 'PLANEROUTE': 5, 'FALLBACK': 2, 'CMAPBOUND': 4}
+FLOORS = {'SELECTORS': 12, 'PLANEROUTE': 5, 'FALLBACK': 2, 'CMAPBOUND': 4, 'NARROWREAD': 1}
 
 BMP_ORDER = [(3, 1), (0, 3), (0, 2), (0, 1), (0, 0)]
 SMP_ORDER = [(3, 10), (0, 4)]
@@ -262,9 +262,46 @@ def cmapbound(run, fx):
     else:
         run.violated('CMAPBOUND', 'destructor block count', d.where(), 'destructor walks `%s` blocks, allocation uses m_isBmpOnly ? 0x100 : 0x1100' % ts)
 
+def narrowread(run, fx, rule='NARROWREAD'):
+    """no big-endian table field is truncated on the way into the variable or field that keeps it: be::read<T> / be::peek<T> of width
+    W is only ever stored into an integer of at least W bits (expected count of narrowing stores: zero; the census of all such
+    stores is the instance count).  A narrowed field compares equal to code points / ids it does not denote."""
+    from .cfg import int_type
+    total, bad = 0, []
+    for fn in fx.all_fns():
+        if not fn.file.startswith('src/') or fn.f.get('implicit'):
+            continue
+        for _, e in fn.elements():
+            pairs = []
+            if e['k'] == 'BinaryOperator' and e['op'] == '=':
+                pairs.append((fn.N(e['c'][0]).get('t'), e['c'][1]))
+            elif e['k'] == 'DeclStmt':
+                for d in e.get('decls', []):
+                    if d.get('init') is not None and d.get('dk') == 'Var':
+                        pairs.append((d.get('t'), d['init']))
+            for t, rhs in pairs:
+                r = fn.strip_all_casts(rhs)
+                if r['k'] == 'CallExpr' and (r.get('fq') or '').split('<')[0].endswith(('be::read', 'be::peek')):
+                    total += 1
+                    wt, wr = int_type((t or '').replace('const ', '')), int_type(r.get('t'))
+                    if wt and wr and wt[0] < wr[0]:
+                        bad.append((fn, e, t, r.get('t')))
+    if total < 60:
+        run.broken(rule, 'census', 'only %d stores of be::read / be::peek results found (98 confirmed)' % total)
+        return
+    if bad:
+        fn, e, t, rt = bad[0]
+        run.violated(rule, 'table fields stored at full width', fn.loc(e), '%s keeps a %s table field in a `%s`: the upper bits are dropped at load, so the value later '
+                     'compares equal to (or misses) numbers it does not denote -- e.g. a pseudo-glyph code point above U+FFFF is never found and its '
+                     'low 16 bits match a different character' % (fn.q, rt, t), {'all': ['%s %s<-%s' % (f.loc(x), a, b) for f, x, a, b in bad[:8]]})
+    else:
+        run.held(rule, 'table fields stored at full width', '', '%d stores of be::read / be::peek results, none into a narrower integer' % total)
+
+
 def run(run):
     fx = run.facts('Q0')
     selectors(run, fx)
     planeroute(run, fx)
     fallback(run, fx)
     cmapbound(run, fx)
+    narrowread(run, fx)
